@@ -8,7 +8,7 @@ ASSUMPTIONS = [
     "expected results are known by construction from the generated abstract response (no second parser is trusted)",
     "trusted: clang 14 + ASan/UBSan, rapidcheck",
 ]
-SUBS = [dict(name="c09", fork=True, quick=dict(cases=700, shards=16), thorough=dict(cases=9000, shards=16))]
+SUBS = [dict(name="c09", fork=True, quick=dict(cases=700, shards=16), thorough=dict(cases=30000, shards=16))]
 WRAPS = ["poll", "recv", "send", "connect", "accept", "getsockopt", "setsockopt", "socket", "close", "bind", "fcntl",
          "malloc", "calloc", "realloc", "free"]
 FILL_BYTES = [0xbe, 0x0a, 0x00, 0x20, 0xff, 0x0d, 0x30]
